@@ -3,6 +3,7 @@
 # Confirms a seeded change in a fresh scratch worktree (suite passes, demo fails with / passes without)
 # and runs the quick checks of the given properties against it. Nothing under /repo is modified.
 set -u
+shopt -s nullglob
 SEED=$1; shift
 W=/tmp/seedchk/$(basename $SEED)-$$
 export GOFLAGS=-mod=mod GOPROXY=off
@@ -29,7 +30,7 @@ go build ./... || { echo "does not build"; exit 2; }
 if [ -n "${DEMOPKG:-}" ]; then
   go test -count=1 $DEMOPKG >/tmp/seedchk/out.$$ 2>&1 && echo "demo WITH change: PASS (unexpected)" || echo "demo WITH change: fail (as intended)"
   # suite without the demo file
-  for f in $SEED/*_test.go; do rm -f $W/*/$(basename $f) $W/*/*/$(basename $f); done
+  for f in $SEED/*_test.go; do [ -f "$f" ] && rm -f $W/*/$(basename $f) $W/*/*/$(basename $f); done
 fi
 go test -vet=off -count=1 ./... 2>&1 | grep -v "^ok\|no test files" | head -5
 echo "suite with change: $(go test -vet=off -count=1 ./... 2>&1 | grep -c '^ok') packages ok, $(go test -vet=off -count=1 ./... 2>&1 | grep -c '^FAIL') FAIL"
